@@ -90,7 +90,22 @@ def pom_text(rng):
 
 
 PEP508 = [b"name", b"Name_x.y", b"a-b-c", b"[extra]", b"[a, b]", b"[", b"]", b" ", b">=1.0", b"(>=1.0,<2)", b"(", b")", b"==1.*", b"~=1.1", b";",
-          b'python_version < "3.8"', b"extra == 'x'", b" and ", b" or ", b"os_name in 'nt posix'", b"not in", b"'", b'"', b"@ http://x", b"\xc3\xa9", b",", b"!="]
+          b'python_version < "3.8"', b"extra == 'x'", b" and ", b" or ", b"os_name in 'nt posix'", b"not in", b"'", b'"', b"@ http://x", b"\xc3\xa9", b",", b"!=",
+          b"\t", b"\n", b"\r", b"\v", b"\f", b"\xc2\x85", b"\xc2\xa0", b"\xe2\x80\xa8", b" \n", b"\t "]
+
+# white space in the wide sense: what unicode.IsSpace / strings.TrimSpace / strings.Fields accept, next to
+# the narrower sets individual grammars allow (two trimming sites that disagree leave an empty remainder)
+WS = [b" ", b"\t", b"\n", b"\r", b"\v", b"\f", b"\xc2\x85", b"\xc2\xa0", b"\xe2\x80\xa8", b"\xe3\x80\x80", b"\x00", b"\x1f"]
+
+
+def ws_mutate(rng, b):
+    """insert one or two wide-sense white space tokens, preferably at an end or next to existing white space"""
+    for _ in range(rng.choice([1, 1, 2])):
+        w = rng.choice(WS)
+        spots = [0, len(b)] + [i for i, c in enumerate(b) if c in b" \t"] + [i + 1 for i, c in enumerate(b) if c in b" \t"]
+        i = rng.choice(spots) if rng.random() < 0.8 else rng.randrange(len(b) + 1)
+        b = b[:i] + w + b[i:]
+    return b
 
 MARKERS = [b"python_version", b"python_full_version", b"os_name", b"sys_platform", b"platform_machine", b"implementation_name", b"extra",
            b"bogus_var", b"'3.8'", b'"nt"', b"'x'", b'"1.0.*"', b"==", b"!=", b"<", b"<=", b">", b">=", b"~=", b"===", b" in ", b" not in ", b" and ", b" or ",
@@ -239,7 +254,21 @@ def cases(ctx):
         out.append(["parse", 5, long_v])
     out.append(["pconstraint", 4, b"||".join([b"1.0.0"] * 5000)])
     out.append(["pconstraint", 4, b" ".join([b">=1.0.0"] * 5000)])
-    return out
+    # wide-sense white space inserted into a share of all textual cases
+    extra = []
+    for c in out:
+        if rng.random() < 0.12 and c[0] != "resolve":
+            idx = [i for i, a in enumerate(c) if isinstance(a, bytes) and len(a) < 5000]
+            if idx:
+                i = rng.choice(idx)
+                extra.append(c[:i] + [ws_mutate(rng, c[i])] + c[i + 1:])
+    for base in (b"requests", b"a[x]", b"a>=1", b"a (>=1)", b"a;os_name=='nt'", b"Name: x\nRequires-Dist: requests", b"1.0", b">=1.0"):
+        for w in WS:
+            for t in (base + b" " + w, base + w, w + base, base + b"\t" + w + w):
+                extra.append(["parsedep", t])
+                extra.append(["canonname", t])
+                extra.append(["parsemetadata", b"Metadata-Version: 2.1\nName: x\nVersion: 1\nRequires-Dist: " + t + b"\n"])
+    return out + extra
 
 
 def run_total(ctx, cs):
